@@ -1,7 +1,11 @@
 /-
 C07 — Row models survive the trip to spreadsheet cells and back, in every layout.
+
+Property theorems only (model: Rpft/Schema, RowParse, RowUnparse, RowSpec; helper lemmas:
+Rpft/Lemmas/Row.lean, Codec.lean).  Strings, integers, list lengths and the number of
+fields are unbounded in every theorem.
 -/
-import Rpft.RowUnparse
+import Rpft.Lemmas.Row
 import Rpft.FlowSchema
 import Rpft.Gen.Tables
 set_option linter.unusedSimpArgs false
@@ -20,6 +24,112 @@ theorem tables_agree_remaps :
     Gen.flowRowTypeToMainArg = flowMainArg ∧
     flowRowSchema.ctxMain = some (Gen.flowMainHeader, Gen.flowTypeColumn, Gen.flowRowTypeToMainArg) ∧
     Gen.edgeH2F = pairsS [("from", "from_")] ∧ Gen.edgeF2H = pairsS [("from_", "from")] := by
+  decide +kernel
+
+/-- the round trip as a Boolean (for the kernel-evaluated witnesses) -/
+def roundTrips (sch : Schema) (lay : Layout) (v : Val) : Bool :=
+  match unparseRow sch lay v with
+  | .ok cells =>
+    match parseRow sch cells with
+    | .ok v' => v' == v
+    | .error _ => false
+  | .error _ => false
+
+/-- the round trip as a statement -/
+def RoundTrip (sch : Schema) (lay : Layout) (v : Val) : Prop :=
+  ∃ cells, unparseRow sch lay v = .ok cells ∧ parseRow sch cells = .ok v
+
+theorem roundTrips_of (sch : Schema) (lay : Layout) (v : Val) (h : RoundTrip sch lay v) :
+    roundTrips sch lay v = true := by
+  obtain ⟨cells, h1, h2⟩ := h
+  simp [roundTrips, h1, h2]
+
+/-- well-formed schema (general statement): field names are distinct header segments at
+every level -/
+def wfFieldNames (fs : List Field) : Bool :=
+  fs.all (fun f => simpleName f.1) && decide ((fs.map (·.1)).Nodup)
+
+/-- **The general statement** (kept visible; proved below for the families named
+`…_partial`): for every schema of the `Ty` grammar without header remaps, every
+representable value and every admissible layout, parse ∘ unparse is the identity.
+(Schemas with remaps additionally need the remap tables to be mutually inverse on the value,
+see `harness/props/c07.py remap_consistent`; untyped lists holding lists must be packed —
+finding F-C04-d.) -/
+def C07_full : Prop :=
+  ∀ (fs : List Field) (lay : Layout) (v : Val),
+    wfFieldNames fs = true →
+    Representable (plainTop fs) v = true → Admissible { top := plainTop fs } lay = true →
+    RoundTrip { top := plainTop fs } lay v
+
+/-- family 1: every field has a basic type (`str`, `int`, `float`, `bool`) -/
+def flatFamily (fs : List Field) : Bool := fs.all fun f => isBasicTy f.2.1
+
+/-- **Flat records**: any number of fields of basic types, any defaults (or none), any
+representable value — unbounded strings and integers; fields equal to their default are
+elided by `unparse` and restored by default filling. -/
+theorem parse_unparse_flat_partial (fs : List Field) (lay : Layout) (v : Val)
+    (hwf : wfFieldNames fs = true) (hfam : flatFamily fs = true)
+    (hr : Representable (plainTop fs) v = true)
+    (ha : Admissible { top := plainTop fs } lay = true) :
+    RoundTrip { top := plainTop fs } lay v := by
+  cases v <;> simp [Representable] at hr
+  case model kvs =>
+    obtain ⟨hnames, hrf⟩ := hr
+    simp only [wfFieldNames, Bool.and_eq_true, List.all_eq_true, decide_eq_true_eq] at hwf
+    obtain ⟨hsimple, hnd⟩ := hwf
+    have he : lay.excluded = [] := by
+      simp only [Admissible, Bool.and_eq_true, List.isEmpty_iff] at ha
+      exact ha.1
+    apply parse_unparse_of_fields lay fs kvs hnames hnd
+    intro p hp hdef
+    have hmem : p.1 ∈ fs := (List.of_mem_zip hp).1
+    obtain ⟨x, hx, hor⟩ := reprFields_mem false kvs fs hrf p.1 hmem
+    have hx' := alookup_zip fs kvs hnames hnd p hp
+    rw [hx'] at hx
+    cases hx
+    rcases hor with h | ⟨_, h⟩
+    · rw [h] at hdef; cases hdef
+    · have hb : isBasicTy p.1.2.1 = true := by
+        simp only [flatFamily, List.all_eq_true] at hfam
+        exact hfam p.1 hmem
+      exact fieldRT_basic (d := p.1.2.2) (hsimple p.1 hmem) (fieldLookup_mem fs hnd p.1 hmem) he hb h
+
+/-! #### non-vacuity and negative witnesses (flat records) -/
+
+def exFlat : List Field :=
+  [("a".toList, .str, some (.str [])), ("b".toList, .int, some (.int 0)),
+   ("c".toList, .bool, some (.bool true)), ("e".toList, .str, some (.str "dflt".toList)),
+   ("r".toList, .str, none)]
+
+def exFlatVal : Val :=
+  .model [("a".toList, .str "x|y; z\\".toList), ("b".toList, .int (-42)), ("c".toList, .bool true),
+    ("e".toList, .str []), ("r".toList, .str "é日".toList)]
+
+/-- the hypotheses of `parse_unparse_flat_partial` are satisfiable by a non-trivial value
+(separators, escapes, a negative number, one default-valued field, one blank non-default) -/
+example : wfFieldNames exFlat = true ∧ flatFamily exFlat = true ∧
+    Representable (plainTop exFlat) exFlatVal = true ∧
+    Admissible { top := plainTop exFlat } {} = true := by decide +kernel
+
+example : roundTrips { top := plainTop exFlat } {} exFlatVal = true := by decide +kernel
+
+/-- strings must be trimmed: the cell is stripped when read -/
+theorem needs_trimmed :
+    roundTrips { top := plainTop exFlat } {}
+      (.model [("a".toList, .str " x".toList), ("b".toList, .int 0), ("c".toList, .bool true),
+        ("e".toList, .str "dflt".toList), ("r".toList, .str "r".toList)]) = false := by
+  decide +kernel
+
+/-- strings must be template free: `{` starts the template engine -/
+theorem needs_template_free :
+    roundTrips { top := plainTop exFlat } {}
+      (.model [("a".toList, .str "{{x}}".toList), ("b".toList, .int 0), ("c".toList, .bool true),
+        ("e".toList, .str "dflt".toList), ("r".toList, .str "r".toList)]) = false := by
+  decide +kernel
+
+/-- nothing may be excluded: an excluded non-default field is lost -/
+theorem needs_nothing_excluded :
+    roundTrips { top := plainTop exFlat } { excluded := ["a".toList] } exFlatVal = false := by
   decide +kernel
 
 end Rpft.Props.C07
